@@ -6,6 +6,8 @@ import (
 	"fmt"
 	"os"
 	"strconv"
+	"strings"
+	"sync"
 )
 
 // ops maps an operation name to the function that performs it on the real code. The
@@ -24,6 +26,8 @@ type Drv struct {
 	Shard, NShards int
 	R    *rng
 	S    *Sink
+	// Limit bounds the events of one goroutine in concurrent mode.
+	Limit int
 }
 
 func (d *Drv) Thorough() bool { return d.Tier == "thorough" }
@@ -39,10 +43,35 @@ func (d *Drv) Span(lo, hi int) (int, int) {
 
 // Do executes a request on the real code and records the completed event.
 func (d *Drv) Do(req Ev) Ev {
+	if concMode {
+		// goroutines of one process share the package configuration: it stays at the library
+		// defaults (configuration events are neither executed nor recorded, so the specification
+		// judges every call under the defaults too)
+		op := str(req["op"])
+		if strings.HasSuffix(op, ".set") {
+			return req
+		}
+		if d.S.total >= d.Limit {
+			panic(stopDriver{})
+		}
+	}
+	if str(req["op"]) == "giant" {
+		if concMode {
+			return req // sets the package limit around its call: not for concurrent use
+		}
+		// the runtime may abort the process inside this call: leave the request behind
+		d.S.Intent(req)
+		defer d.S.IntentDone()
+	}
 	e := Exec(req)
 	d.S.Emit(e)
 	return e
 }
+
+// concMode: several drivers run as goroutines of this process (harness conc ...).
+var concMode bool
+
+type stopDriver struct{}
 
 // Exec runs one request; a panic escaping the library is an observation, not a crash.
 func Exec(req Ev) (out Ev) {
@@ -88,6 +117,46 @@ func main() {
 		d.R.s += uint64(*shard) * 0x51ed27
 		drv(d)
 		d.S.Summary()
+	case "conc":
+		// conc <driver> -goroutines G : the driver's shards 0..G-1 run as goroutines of this one
+		// process, each recording its own trace. Calls of a value library must not disturb one
+		// another: every goroutine's trace has to be a behaviour of the (sequential) specification.
+		name := os.Args[2]
+		fs := flag.NewFlagSet("conc", flag.ExitOnError)
+		tier := fs.String("tier", "quick", "")
+		seed := fs.Uint64("seed", 1, "")
+		out := fs.String("out", ".", "")
+		per := fs.Int("per", 100000, "events per chunk")
+		gs := fs.Int("goroutines", 8, "")
+		limit := fs.Int("limit", 20000, "events per goroutine")
+		fs.Parse(os.Args[3:])
+		drv, ok := drivers[name]
+		if !ok {
+			fatal("unknown driver %q", name)
+		}
+		concMode = true
+		var wg sync.WaitGroup
+		sinks := make([]*Sink, *gs)
+		for g := 0; g < *gs; g++ {
+			d := &Drv{Tier: *tier, Seed: *seed, R: &rng{s: *seed*0x9e3779b97f4a7c15 + 12345 + uint64(g)*0x51ed27}, S: NewSink(*out, fmt.Sprintf("conc-%s-g%02d", name, g), *per), Shard: g, NShards: *gs, Limit: *limit}
+			sinks[g] = d.S
+			wg.Add(1)
+			go func() {
+				defer wg.Done()
+				defer func() {
+					if r := recover(); r != nil {
+						if _, ok := r.(stopDriver); !ok {
+							panic(r)
+						}
+					}
+				}()
+				drv(d)
+			}()
+		}
+		wg.Wait()
+		for _, s := range sinks {
+			s.Summary()
+		}
 	case "replay":
 		// replay <file> : file holds {"events":[...]}; each event is re-executed in order in
 		// this fresh process and printed as ndjson (observations recomputed).
